@@ -143,6 +143,140 @@ def check_packed_guid(ctx, FB, crate, rd, wr, sz):
     return n_cases
 
 
+# ---- hand-written mask / conditional built-ins: bytes -> value -> bytes must be the identity, size() = bytes ------------
+M = "crate::manual::"
+# type -> (mask width in bytes per the type's documentation page, element bytes generator(index) or None for plain tokens)
+BUILTINS = {
+    M + "vanilla::aura_mask::AuraMask": (4, 2, "aura-mask.md: 32 bit pattern, u16 members"),
+    M + "tbc::aura_mask::AuraMask": (8, 3, "aura-mask.md: 64 bit pattern, Aura members (u16 + u8)"),
+    M + "wrath::aura_mask::AuraMask": (8, 5, "aura-mask.md: 64 bit pattern, Aura members (u32 + u8)"),
+    M + "wrath::cache_mask::CacheMask": (4, 4, "cache-mask.md: 32 bit pattern, u32 members"),
+    M + "wrath::enchant_mask::EnchantMask": (2, 2, "enchant-mask.md: 16 bit pattern, u16 members"),
+    M + "wrath::inspect_talent_gear_mask::InspectTalentGearMask": (4, "gear", "inspect-talent-gear-mask.md: 32 bit pattern, InspectTalentGear members"),
+}
+
+
+def _mask_patterns(bits):
+    pats = [0, (1 << bits) - 1]
+    pats += [1 << i for i in range(bits)]
+    pats += [0x5 | (1 << (bits - 1)), int("0110" * (bits // 4), 2), (1 << (bits // 2)) | 1]
+    return pats
+
+
+class _Counter:
+    def __init__(self):
+        self.n = 1000
+
+    def toks(self, k, cls="any"):
+        out = [Tok(self.n + i, cls) for i in range(k)]
+        self.n += k
+        return out
+
+
+def _element(kind, c):
+    if kind == "gear":
+        # InspectTalentGear: Item(u32) EnchantMask(u16 mask + u16 each) u16 PackedGuid(mask byte + non-zero bytes) u32
+        return c.toks(4) + [0x03, 0x00] + c.toks(4) + c.toks(2) + [0x05] + c.toks(2, "nz") + c.toks(4)
+    return c.toks(kind)
+
+
+def same_bytes(a, b):
+    """byte sequences equal; a zero-class token is the byte 0"""
+    if len(a) != len(b):
+        return False
+    for x, y in zip(a, b):
+        if x == y:
+            continue
+        if (isinstance(x, Tok) and x.cls == "z" and y == 0) or (isinstance(y, Tok) and y.cls == "z" and x == 0):
+            continue
+        return False
+    return True
+
+
+def check_builtins(ctx, FB):
+    F = FB["wow_world_messages"]
+    n_types = cases = 0
+    for ty, (width, elem, why) in BUILTINS.items():
+        rd, wr, sz = F.fn(ty + "::read"), F.fn(ty + "::write_into_vec"), F.fn(ty + "::size")
+        if rd is None or wr is None or sz is None:
+            ctx.violate("builtin.siblings", f"anchor|{ty}", f"{ty}: read / write_into_vec / size not found (anchor disappeared)")
+            continue
+        n_types += 1
+        bits = width * 8
+        for pat in _mask_patterns(bits):
+            cases += 1
+            c = _Counter()
+            stream = [(pat >> (8 * i)) & 0xFF for i in range(width)]
+            for i in range(bits):
+                if pat & (1 << i):
+                    stream += _element(elem, c)
+            body_len = len(stream)
+            stream = stream + c.toks(EXTRA)
+            st = Stream(stream)
+            key = f"wow_world_messages::{ty}"
+            v, err = _run(Mini(FB, "wow_world_messages"), ty + "::read", [st])
+            if err or not (isinstance(v, tuple) and v[0] == "Ok"):
+                ctx.violate("builtin.siblings", key + "|read", f"{ty}::read, mask {pat:#x}: {err or v}", rd["file"], rd["line"])
+                break
+            if st.pos != body_len:
+                ctx.violate("builtin.siblings", key + "|read-len", f"{ty}::read, mask {pat:#x}: consumes {st.pos} bytes, the encoding ({why}) has {body_len}", rd["file"], rd["line"])
+                break
+            sink = Sink()
+            w, err = _run(Mini(FB, "wow_world_messages"), ty + "::write_into_vec", [v[1], sink])
+            if err or not (isinstance(w, tuple) and w[0] == "Ok"):
+                ctx.violate("builtin.siblings", key + "|write", f"{ty}::write_into_vec of a value decoded from mask {pat:#x}: {err or w}", wr["file"], wr["line"])
+                break
+            if not same_bytes(sink.out, stream[:body_len]):
+                first = next((i for i, (a, b) in enumerate(zip(sink.out, stream)) if a != b), min(len(sink.out), body_len))
+                ctx.violate("builtin.siblings", key + "|roundtrip",
+                            f"{ty}: decoding the {body_len} bytes of an encoding with mask {pat:#x} and writing the value back gives {len(sink.out)} bytes that differ from the input at byte {first} "
+                            f"(read and write disagree: {why})", wr["file"], wr["line"])
+                break
+            s, err = _run(Mini(FB, "wow_world_messages"), ty + "::size", [v[1]])
+            if err or s != len(sink.out):
+                ctx.violate("builtin.siblings", key + "|size", f"{ty}::size() = {s if not err else err} for a value that is written as {len(sink.out)} bytes (mask {pat:#x})", sz["file"], sz["line"])
+                break
+    # conditional built-ins
+    for ty, variants in (
+        (M + "shared::tbc_wrath_named_guid::NamedGuid", "named"),
+        (M + "shared::tbc_wrath_variable_item_random_property::VariableItemRandomProperty", "varitem"),
+    ):
+        rd = F.fn(ty + "::read")
+        if rd is None:
+            ctx.violate("builtin.siblings", f"anchor|{ty}", f"{ty}::read not found (anchor disappeared)")
+            continue
+        n_types += 1
+        streams = []
+        c = _Counter()
+        if variants == "named":
+            streams.append([0] * 8)
+            for nlen in (0, 1, 7):
+                streams.append(c.toks(1, "nz") + c.toks(7) + c.toks(nlen, "nz") + c.toks(1, "z"))
+        else:
+            streams.append([0] * 4)
+            streams.append(c.toks(1, "nz") + c.toks(3) + c.toks(4))
+        for body in streams:
+            cases += 1
+            st = Stream(body + c.toks(EXTRA))
+            key = f"wow_world_messages::{ty}"
+            v, err = _run(Mini(FB, "wow_world_messages"), ty + "::read", [st])
+            if err or not (isinstance(v, tuple) and v[0] == "Ok") or st.pos != len(body):
+                what = err or (f"consumes {st.pos} bytes" if isinstance(v, tuple) and v[0] == "Ok" else repr(v))
+                ctx.violate("builtin.siblings", key + "|read", f"{ty}::read of a {len(body)}-byte encoding: {what}", rd["file"], rd["line"])
+                break
+            sink = Sink()
+            w, err = _run(Mini(FB, "wow_world_messages"), ty + "::write_into_vec", [v[1], sink])
+            if err or not same_bytes(sink.out, body):
+                ctx.violate("builtin.siblings", key + "|roundtrip", f"{ty}: writing back the value decoded from a {len(body)}-byte encoding gives {err or len(sink.out)} bytes / different bytes", rd["file"], rd["line"])
+                break
+            s, err = _run(Mini(FB, "wow_world_messages"), ty + "::size", [v[1]])
+            if err or s != len(body):
+                ctx.violate("builtin.siblings", key + "|size", f"{ty}::size() = {s if not err else err}, the value is written as {len(body)} bytes", rd["file"], rd["line"])
+                break
+    ctx.rule("builtin.siblings", n_types, floor=8, note=f"hand-written mask / conditional built-ins: decode -> encode identity and size() over {cases} mask patterns / cases")
+    return cases
+
+
 def run(ctx):
     FB = {c: facts(c) for c in ("wow_world_messages", "wow_world_base", "wow_login_messages")}
     fns = 0
@@ -178,6 +312,7 @@ def run(ctx):
     for k, floor in (("cstring", 4), ("sized", 1), ("fixed", 3)):
         if found[k] < floor:
             ctx.violate("leaf.codecs", f"anchor|{k}", f"only {found[k]} {k} string readers found, expected at least {floor} (anchor disappeared)")
+    cases += check_builtins(ctx, FB)
     ctx.rule("leaf.codecs", fns, floor=11, note=f"hand-written string / packed-guid codecs interpreted over {cases} input classes (every length 0..=255, every packed-guid mask)")
     ctx.assume("leaf codecs are decided per input class by abstract interpretation (bytes carry identity and a zero/non-zero class; lengths, counters and masks are concrete); "
                "the UTF-8 conversion of the returned bytes is std's String::from_utf8 (trusted)")
